@@ -253,3 +253,61 @@ def replay_slices(ctx, tr):
                 ctx.disagree("sys.time-slice", {"ini": meta["ini"], "seed": meta["seed"], "leg": inf[0], "unit": inf[1],
                                                 "handler": inf[2], "request": line, "job": tr.get("job")}, " ".join(want), g)
     return len(lines)
+
+
+def replay_end_of_chain(ctx, tr):
+    """the end-of-chain handlers' own computations on recorded runs: new velocity (periodic: cyclic shift of the direction of
+    motion; sequential: rotation with the handler's cos/sin) and candidate time = last end-of-chain time + chain time, recomputed
+    by `JF.EndOfChain` in binary64, bit for bit"""
+    import math
+    meta = tr["meta"]
+    cfg = meta["config"] or {}
+    d = meta["dimension"]
+    ets = runs.event_times(tr)
+    eoc = {}
+    for h, (tag, cls) in enumerate(meta["handlers"]):
+        base = cls.split("(")[-1].rstrip(")").strip() if "(" in cls else cls
+        sec = cfg.get(cls.split(" (")[0]) or cfg.get(base)
+        if sec is None or "chain_time" not in sec:
+            continue
+        kind = "seq" if "delta_phi_degree" in sec else "periodic"
+        par = {"chain": float(sec["chain_time"])}
+        if kind == "seq":
+            phi = float(sec["delta_phi_degree"]) * math.pi / 180.0
+            par.update(c=math.cos(phi), s=math.sin(phi))
+        eoc[h] = (kind, par)
+    if not eoc:
+        return 0
+    lines, exp, info = [], [], []
+    last = (0.0, 0.0)
+    pre = tr["initial"]
+    for i, leg in enumerate(tr["legs"]):
+        # candidate time pushed by an end-of-chain handler in this leg
+        for h, t in leg["times"].items():
+            if h in eoc and leg["active_roots"]:
+                cur = pre[tuple(leg["active_roots"][0])][2]
+                if cur is not None:
+                    lines.append("eoctime %s %s %s %s %s" % (f2b(last[0]), f2b(last[1]), f2b(cur[0]), f2b(cur[1]), f2b(eoc[h][1]["chain"])))
+                    exp.append(f"{f2b(t[0])} {f2b(t[1])}")
+                    info.append((i, "time"))
+        h = leg["chosen"]
+        if h in eoc and ets[i] is not None:
+            kind, par = eoc[h]
+            old = [v[1] for k, v in pre.items() if runs.is_leaf(k, meta) and v[1] is not None]
+            new = [v[1] for k, v in leg["post"].items() if runs.is_leaf(k, meta) and v[1] is not None]
+            if old and new:
+                if kind == "periodic":
+                    lines.append("eocvel periodic %d %s" % (d, " ".join(f2b(x) for x in old[0])))
+                else:
+                    lines.append("eocvel seq %s %s %s" % (f2b(par["c"]), f2b(par["s"]), " ".join(f2b(x) for x in old[0])))
+                exp.append(" ".join(f2b(x) for x in new[0]))
+                info.append((i, "velocity:" + kind))
+            last = ets[i]
+        pre = leg["post"]
+    rep = ctx.model("sys", lines) if lines else []
+    for line, e, g, inf in zip(lines, exp, rep, info):
+        ctx.count("eoc-replay:" + inf[1])
+        if e != g:
+            ctx.disagree("sys.end-of-chain." + inf[1].split(":")[0], {"ini": meta["ini"], "seed": meta["seed"], "leg": inf[0], "request": line,
+                                                                       "job": tr.get("job")}, e, g)
+    return len(lines)
